@@ -2,7 +2,6 @@
   C14 helper lemmas, part 5: from the builder EXPRESSION to the tree of field objects it evaluates to.
 
   For an expression that applies no mutator to a class-level object:
-    * outside the F2 trigger (`trigDeep d e = false`) the tree carries no argument below level `3 - d`;
     * outside the F1 and F3 triggers every object of the tree carries its GraphQL field name and the
       exact GraphQL type of each argument (`ExactOK`), hence `intended = intendedExact`.
 -/
@@ -74,24 +73,9 @@ end
 
 /-! ### list lemmas for the two node predicates -/
 
-theorem NoVarsBelowList_append (k : Nat) : ∀ (a b : List Node),
-    NoVarsBelowList k (a ++ b) = (NoVarsBelowList k a && NoVarsBelowList k b)
-  | [], b => by simp [NoVarsBelowList]
-  | n :: a, b => by simp [NoVarsBelowList, NoVarsBelowList_append k a b, Bool.and_assoc]
-
 theorem ExactOKList_append : ∀ (a b : List Node), ExactOKList (a ++ b) = (ExactOKList a && ExactOKList b)
   | [], b => by simp [ExactOKList]
   | n :: a, b => by simp [ExactOKList, ExactOKList_append a b, Bool.and_assoc]
-
-theorem NoVarsBelowFrags_set (k : Nat) (ty : String) (cs : List Node) (hc : NoVarsBelowList k cs = true) :
-    ∀ (fs : List Frag), NoVarsBelowFrags k fs = true → NoVarsBelowFrags k (setFragList ty cs fs) = true
-  | [], _ => by simp [setFragList, NoVarsBelowFrags, hc]
-  | .mk t ns :: fs, h => by
-    simp only [NoVarsBelowFrags, Bool.and_eq_true] at h
-    simp only [setFragList]
-    split
-    · simp [NoVarsBelowFrags, hc, h.2]
-    · simp [NoVarsBelowFrags, h.1, NoVarsBelowFrags_set k ty cs hc fs h.2]
 
 theorem ExactOKFrags_set (ty : String) (cs : List Node) (hc : ExactOKList cs = true) :
     ∀ (fs : List Frag), ExactOKFrags fs = true → ExactOKFrags (setFragList ty cs fs) = true
@@ -103,59 +87,25 @@ theorem ExactOKFrags_set (ty : String) (cs : List Node) (hc : ExactOKList cs = t
     · simp [ExactOKFrags, hc, h.2]
     · simp [ExactOKFrags, h.1, ExactOKFrags_set ty cs hc fs h.2]
 
-/-- the node predicate the evaluation establishes at expression depth `d` -/
-def NodeOK (d : Nat) (n : Node) : Prop := NoVarsBelow (3 - d) n = true ∧ ExactOK n = true
-def NodesOK (d : Nat) (ns : List Node) : Prop := NoVarsBelowList (3 - d) ns = true ∧ ExactOKList ns = true
+/-- the node predicate the evaluation establishes -/
+def NodeOK (n : Node) : Prop := ExactOK n = true
+def NodesOK (ns : List Node) : Prop := ExactOKList ns = true
 
-theorem three_sub_succ (d : Nat) : (3 - d = 0 ∧ 3 - (d + 1) = 0) ∨ (3 - d = (3 - (d + 1)) + 1) := by omega
+theorem nodeOK_setAlias {al r subs frags} (h : NodeOK (.obj r subs frags)) :
+    NodeOK (setAlias al (.obj r subs frags)) := by
+  simpa [NodeOK, setAlias, ExactOK] using h
 
-theorem nodeOK_setAlias {d al r subs frags} (h : NodeOK d (.obj r subs frags)) :
-    NodeOK d (setAlias al (.obj r subs frags)) := by
-  obtain ⟨h1, h2⟩ := h
-  refine ⟨?_, ?_⟩
-  · simp only [setAlias]
-    cases hk : 3 - d with
-    | zero => rw [hk] at h1; simpa [NoVarsBelow] using h1
-    | succ k => rw [hk] at h1; simpa [NoVarsBelow] using h1
-  · simpa [setAlias, ExactOK] using h2
+theorem nodeOK_extendSubs {cs r subs frags} (h : NodeOK (.obj r subs frags)) (hc : NodesOK cs) :
+    NodeOK (extendSubs cs (.obj r subs frags)) := by
+  unfold NodeOK NodesOK at *
+  simp only [extendSubs, ExactOK, Bool.and_eq_true] at h ⊢
+  simp [h.1.1.1, h.1.1.2, h.1.2, h.2, ExactOKList_append, hc]
 
-theorem nodeOK_extendSubs {d cs r subs frags} (h : NodeOK d (.obj r subs frags)) (hc : NodesOK (d + 1) cs) :
-    NodeOK d (extendSubs cs (.obj r subs frags)) := by
-  obtain ⟨h1, h2⟩ := h
-  obtain ⟨c1, c2⟩ := hc
-  refine ⟨?_, ?_⟩
-  · simp only [extendSubs]
-    rcases three_sub_succ d with ⟨e0, e1⟩ | e
-    · rw [e0] at h1 ⊢
-      rw [e1] at c1
-      simp only [NoVarsBelow, Bool.and_eq_true] at h1 ⊢
-      rw [NoVarsBelowList_append]
-      simp only [Bool.and_eq_true]
-      exact ⟨⟨h1.1.1, h1.1.2, c1⟩, h1.2⟩
-    · rw [e] at h1 ⊢
-      simp only [NoVarsBelow, Bool.and_eq_true] at h1 ⊢
-      rw [NoVarsBelowList_append]
-      simp only [Bool.and_eq_true]
-      exact ⟨⟨h1.1, c1⟩, h1.2⟩
-  · simp only [extendSubs, ExactOK, Bool.and_eq_true] at h2 ⊢
-    simp [h2.1.1.1, h2.1.1.2, h2.1.2, h2.2, ExactOKList_append, c2]
-
-theorem nodeOK_setFrag {d ty cs r subs frags} (h : NodeOK d (.obj r subs frags)) (hc : NodesOK (d + 1) cs) :
-    NodeOK d (setFrag ty cs (.obj r subs frags)) := by
-  obtain ⟨h1, h2⟩ := h
-  obtain ⟨c1, c2⟩ := hc
-  refine ⟨?_, ?_⟩
-  · simp only [setFrag]
-    rcases three_sub_succ d with ⟨e0, e1⟩ | e
-    · rw [e0] at h1 ⊢
-      rw [e1] at c1
-      simp only [NoVarsBelow, Bool.and_eq_true] at h1 ⊢
-      exact ⟨⟨h1.1.1, h1.1.2⟩, NoVarsBelowFrags_set 0 ty cs c1 frags h1.2⟩
-    · rw [e] at h1 ⊢
-      simp only [NoVarsBelow, Bool.and_eq_true] at h1 ⊢
-      exact ⟨h1.1, NoVarsBelowFrags_set _ ty cs c1 frags h1.2⟩
-  · simp only [setFrag, ExactOK, Bool.and_eq_true] at h2 ⊢
-    exact ⟨⟨⟨h2.1.1.1, h2.1.1.2⟩, h2.1.2⟩, ExactOKFrags_set ty cs c2 frags h2.2⟩
+theorem nodeOK_setFrag {ty cs r subs frags} (h : NodeOK (.obj r subs frags)) (hc : NodesOK cs) :
+    NodeOK (setFrag ty cs (.obj r subs frags)) := by
+  unfold NodeOK NodesOK at *
+  simp only [setFrag, ExactOK, Bool.and_eq_true] at h ⊢
+  exact ⟨⟨⟨h.1.1.1, h.1.1.2⟩, h.1.2⟩, ExactOKFrags_set ty cs hc frags h.2⟩
 
 /-! ### `bindArgs` -/
 
@@ -282,38 +232,25 @@ theorem evalCall_inv {p : Package} {cls a : String} {kw : List (String × J)} {s
           exact ⟨c, acc, vars, hc, ha, hv, h.1.symm⟩
 
 mutual
-  theorem evalExpr_nodeOK (p : Package) : ∀ (e : Expr) (d : Nat) (st st' : Store) (n : Node),
-      mutatesShared e = false → trigDeep d e = false → trigListArg p e = false → trigPyName p e = false →
-      evalExpr p e st = (.ok n, st') → NodeOK d n
-    | .attr cls a, d, st, st', n, _, _, _, _, h => by
+  theorem evalExpr_nodeOK (p : Package) : ∀ (e : Expr) (st st' : Store) (n : Node),
+      mutatesShared e = false → trigListArg p e = false → trigPyName p e = false →
+      evalExpr p e st = (.ok n, st') → NodeOK n
+    | .attr cls a, st, st', n, _, _, _, h => by
       simp only [evalExpr] at h
       split at h <;> try (simp at h)
       split at h <;> try (simp at h)
       split at h <;> try (simp at h)
       split at h <;> try (simp at h)
       obtain ⟨rfl, -⟩ := h
-      refine ⟨?_, by simp [ExactOK]⟩
-      cases (3 - d) <;> simp [NoVarsBelow]
-    | .call cls a kw, d, st, st', n, _, hd, hl, hpn, h => by
+      simp [NodeOK, ExactOK]
+    | .call cls a kw, st, st', n, _, hl, hpn, h => by
       obtain ⟨c, acc, vars, hc, ha, hv, rfl⟩ := evalCall_inv h
       simp only [trigListArg, hc, ha] at hl
       simp only [trigPyName, hc, ha, bne_eq_false_iff_eq] at hpn
-      simp only [trigDeep, Bool.and_eq_false_iff, decide_eq_false_iff_not] at hd
-      refine ⟨?_, ?_⟩
-      · simp only [mkNode]
-        cases hk : 3 - d with
-        | zero =>
-          have : kwNonNull kw = false := by
-            rcases hd with hd | hd
-            · omega
-            · exact hd
-          simp [NoVarsBelow, NoVarsBelowList, NoVarsBelowFrags, bindArgs_allNull hv this]
-        | succ k => simp [NoVarsBelow, NoVarsBelowList, NoVarsBelowFrags]
-      · simp only [mkNode, ExactOK, ExactOKList, ExactOKFrags, Bool.and_true, Bool.and_eq_true, beq_iff_eq]
-        exact ⟨hpn, bindArgs_exact hv hl⟩
-    | .alias e al, d, st, st', n, hm, hd, hl, hpn, h => by
+      simp only [NodeOK, mkNode, ExactOK, ExactOKList, ExactOKFrags, Bool.and_true, Bool.and_eq_true, beq_iff_eq]
+      exact ⟨hpn, bindArgs_exact hv hl⟩
+    | .alias e al, st, st', n, hm, hl, hpn, h => by
       simp only [mutatesShared, Bool.or_eq_false_iff] at hm
-      simp only [trigDeep] at hd
       simp only [trigListArg] at hl
       simp only [trigPyName] at hpn
       simp only [evalExpr] at h
@@ -323,16 +260,15 @@ mutual
       | error x => simp at h
       | ok n0 =>
         obtain ⟨r0, s0, f0, rfl⟩ := (evalExpr_noMut p e st hm.2).2 hm.1 n0 (by rw [hh])
-        have ih := evalExpr_nodeOK p e d st st1 _ hm.2 hd hl hpn hh
+        have ih := evalExpr_nodeOK p e st st1 _ hm.2 hl hpn hh
         simp only [mutate_obj] at h
         split at h
         · simp at h
           rw [← h.1]
           exact nodeOK_setAlias ih
         · simp at h
-    | .fields e cs, d, st, st', n, hm, hd, hl, hpn, h => by
+    | .fields e cs, st, st', n, hm, hl, hpn, h => by
       simp only [mutatesShared, Bool.or_eq_false_iff] at hm
-      simp only [trigDeep, Bool.or_eq_false_iff] at hd
       simp only [trigListArg, Bool.or_eq_false_iff] at hl
       simp only [trigPyName, Bool.or_eq_false_iff] at hpn
       simp only [evalExpr] at h
@@ -342,7 +278,7 @@ mutual
       | error x => simp at h
       | ok n0 =>
         obtain ⟨r0, s0, f0, rfl⟩ := (evalExpr_noMut p e st hm.1.2).2 hm.1.1 n0 (by rw [hh])
-        have ih := evalExpr_nodeOK p e d st st1 _ hm.1.2 hd.1 hl.1 hpn.1 hh
+        have ih := evalExpr_nodeOK p e st st1 _ hm.1.2 hl.1 hpn.1 hh
         simp only [] at h
         split at h
         · rcases hl2 : evalList p cs st1 with ⟨rl, st2⟩
@@ -350,14 +286,13 @@ mutual
           cases rl with
           | error x => simp at h
           | ok ns =>
-            have ihc := evalList_nodesOK p cs (d + 1) st1 st2 ns hm.2 hd.2 hl.2 hpn.2 hl2
+            have ihc := evalList_nodesOK p cs st1 st2 ns hm.2 hl.2 hpn.2 hl2
             simp [mutate_obj] at h
             rw [← h.1]
             exact nodeOK_extendSubs ih ihc
         · simp at h
-    | .on e ty cs, d, st, st', n, hm, hd, hl, hpn, h => by
+    | .on e ty cs, st, st', n, hm, hl, hpn, h => by
       simp only [mutatesShared, Bool.or_eq_false_iff] at hm
-      simp only [trigDeep, Bool.or_eq_false_iff] at hd
       simp only [trigListArg, Bool.or_eq_false_iff] at hl
       simp only [trigPyName, Bool.or_eq_false_iff] at hpn
       simp only [evalExpr] at h
@@ -367,7 +302,7 @@ mutual
       | error x => simp at h
       | ok n0 =>
         obtain ⟨r0, s0, f0, rfl⟩ := (evalExpr_noMut p e st hm.1.2).2 hm.1.1 n0 (by rw [hh])
-        have ih := evalExpr_nodeOK p e d st st1 _ hm.1.2 hd.1 hl.1 hpn.1 hh
+        have ih := evalExpr_nodeOK p e st st1 _ hm.1.2 hl.1 hpn.1 hh
         simp only [] at h
         split at h
         · rcases hl2 : evalList p cs st1 with ⟨rl, st2⟩
@@ -375,21 +310,20 @@ mutual
           cases rl with
           | error x => simp at h
           | ok ns =>
-            have ihc := evalList_nodesOK p cs (d + 1) st1 st2 ns hm.2 hd.2 hl.2 hpn.2 hl2
+            have ihc := evalList_nodesOK p cs st1 st2 ns hm.2 hl.2 hpn.2 hl2
             simp [mutate_obj] at h
             rw [← h.1]
             exact nodeOK_setFrag ih ihc
         · simp at h
-  theorem evalList_nodesOK (p : Package) : ∀ (es : List Expr) (d : Nat) (st st' : Store) (ns : List Node),
-      mutatesSharedList es = false → trigDeepList d es = false → trigListArgList p es = false →
-      trigPyNameList p es = false → evalList p es st = (.ok ns, st') → NodesOK d ns
-    | [], d, st, st', ns, _, _, _, _, h => by
+  theorem evalList_nodesOK (p : Package) : ∀ (es : List Expr) (st st' : Store) (ns : List Node),
+      mutatesSharedList es = false → trigListArgList p es = false →
+      trigPyNameList p es = false → evalList p es st = (.ok ns, st') → NodesOK ns
+    | [], st, st', ns, _, _, _, h => by
       simp [evalList] at h
       rw [h.1]
-      exact ⟨by simp [NoVarsBelowList], by simp [ExactOKList]⟩
-    | e :: es, d, st, st', ns, hm, hd, hl, hpn, h => by
+      simp [NodesOK, ExactOKList]
+    | e :: es, st, st', ns, hm, hl, hpn, h => by
       simp only [mutatesSharedList, Bool.or_eq_false_iff] at hm
-      simp only [trigDeepList, Bool.or_eq_false_iff] at hd
       simp only [trigListArgList, Bool.or_eq_false_iff] at hl
       simp only [trigPyNameList, Bool.or_eq_false_iff] at hpn
       simp only [evalList] at h
@@ -398,17 +332,19 @@ mutual
       cases r with
       | error x => simp at h
       | ok n0 =>
-        have i1 := evalExpr_nodeOK p e d st st1 n0 hm.1 hd.1 hl.1 hpn.1 hh
+        have i1 := evalExpr_nodeOK p e st st1 n0 hm.1 hl.1 hpn.1 hh
         simp only [] at h
         rcases hl2 : evalList p es st1 with ⟨rl, st2⟩
         rw [hl2] at h
         cases rl with
         | error x => simp at h
         | ok ns0 =>
-          have i2 := evalList_nodesOK p es d st1 st2 ns0 hm.2 hd.2 hl.2 hpn.2 hl2
+          have i2 := evalList_nodesOK p es st1 st2 ns0 hm.2 hl.2 hpn.2 hl2
           simp at h
           rw [← h.1]
-          exact ⟨by simp [NoVarsBelowList, i1.1, i2.1], by simp [ExactOKList, i1.2, i2.2]⟩
+          unfold NodeOK at i1
+          unfold NodesOK at i2 ⊢
+          simp [ExactOKList, i1, i2]
 end
 
 end Ariadne.C14
